@@ -359,6 +359,9 @@ func init() {
 				add("twelve-files-k2", merge(base, p("fill", 12, "k", 2, "ops", opPut|opDelete|opMerge|opRestart, "vlens", 1, "dfs_lo", 20, "dfs_hi", 20)))
 				add("cfgsweep-k2", merge(base, p("cfgsweep", 2, "k", 2, "ops", opPut|opDelete|opRestart, "vlens", 1, "dfs_lo", 40, "dfs_hi", 40)))
 				add("batch-put-delete-cycles-then-filler", merge(base, p("k", 1, "ops", opBatch, "bcycles", 3, "bmax", 1, "vlens", 4, "vbig", 25, "vbig2", -60, "dfs_lo", 100, "dfs_hi", 200)))
+				// a batch larger than DataFileSize whose flush is forced by the re-Put of an already staged key, with more
+				// operations behind it: the staged-size bookkeeping of the re-staged record decides the next file's size (S148)
+				add("batch-overflow-by-restaged-key-bmax3", merge(base, p("k", 1, "ops", opBatch, "bmax", 3, "vlens", 5, "vbig", 25, "vbig2", 60, "vbig3", 90, "dfs_lo", 150, "dfs_hi", 200)))
 				// Stat on a database RECOVERED from a crash (interrupted batches, torn tails): the crash harness with C17's oracle
 				js = append(js, JobSpec{Name: "stat-after-crashed-batch", Harness: "root", Func: "verifHarnessCrash", Params: merge(base, p("prop", 17, "statcheck", 1, "preput", 1, "k", 1, "ops", opBatch, "bmax", 3, "vlens", 1, "dfs_lo", 120, "dfs_hi", 160, "after", 1)), Scale: scaleDF(32), ReplayRestore: true})
 				js = append(js, JobSpec{Name: "stat-after-power-loss", Harness: "root", Func: "verifHarnessCrash", Params: merge(base, p("prop", 17, "statcheck", 1, "powerloss", 1, "k", 2, "ops", opPut|opDelete|opSync, "vlens", 2, "dfs_lo", 60, "dfs_hi", 100, "after", 1)), Scale: scaleDF(32), ReplayRestore: true})
